@@ -1,6 +1,16 @@
 """What each registered check claims (source of MANIFEST.json; see tools/gen_manifest.py)."""
 
 CLAIMS = {
+    "C15": {
+        "text": "bsplmatrix is evaluated as an array comprehension and must be zeros((len(tau), n)) with exactly three write families (row 0: order "
+                "left_n at tau[0]; last row: order right_n at tau[last]; interior rows: values), column i <-> basis i; csolve's two count guards give Err "
+                "with the spline untouched and success stores Some(fdsolve(bsplmatrix(tau,left_n,right_n), y, allow_lsq)); every ppdnev_single* is "
+                "inner(c, [B_i^(m)(x)]_{i<n}) (Err before solving; the two mixed-kind methods always Err); the dual liftings equal the unary chain rule "
+                "with f, f', f'' = B^(m), B^(m+1), B^(m+2) at x.real; the 9-case mapped_value type table.",
+        "design_ref": "DESIGN.md §4 C15",
+        "note": "Not decided: interpolation / polynomial reproduction as numerical facts (rest on C13's undecided part).",
+        "technique": "array-comprehension semantics; explore() of &mut self methods; oracle composition formula; case tables",
+    },
     "C14": {
         "text": "Recurrence conformance: bsplev_single_f64 and bspldnev_single_f64 are flattened into their complete path sets (8 resp. 10 paths, for "
                 "org_k given or defaulted) and must equal the Cox-de Boor decision list with the support short-circuit and the right-end rule, resp. "
